@@ -267,6 +267,13 @@ pub fn number_to_fixed(
         ));
     }
 
+    // NaN, the infinities and magnitudes from 1e21 print as String(n) does
+    if !n.is_finite() || n.abs() >= 1e21 {
+        return Ok(Guarded::unguarded(JsValue::String(JsString::from(
+            format_number_js(n),
+        ))));
+    }
+
     let result = format!("{:.prec$}", n, prec = digits as usize);
     Ok(Guarded::unguarded(JsValue::String(JsString::from(result))))
 }
